@@ -14,7 +14,8 @@ DECIDED = ["R08c properties are removed with the element",
            "R09b insert_or_replace: replace-in-place on found key, append otherwise (MUST)",
            "R09c remove_value removes exactly the found pair in place (no swap)",
            "R09d insert_or_replace reports None only after an insertion and Some(old) only after a replacement (DOM)",
-           "R09e DbF64 equality / order / hashes agree (total_cmp and to_bits, no IEEE comparison of the raw floats)"]
+           "R09e DbF64 equality / order / hashes agree (total_cmp and to_bits, no IEEE comparison of the raw floats)",
+           "R09f stable hashes are computed only by the hash-map implementation (WHO; identity is equality)"]
 UNDECIDED = ["order and content of returned pairs over histories (needs execution)"]
 
 KV = "agdb::db::db_key_value::DbKeyValues::"
@@ -171,4 +172,7 @@ def run(ctx):
                "insert_or_replace no longer replaces an existing key in place / appends a new key", b.where)
     insert_or_replace_contract_rule(ctx)
     float_key_rule(ctx)
+    # a hash places an entry, equality identifies it (R09f, shared with C11)
+    from rules import maps_common
+    maps_common.hash_identity_rule(ctx)
     return 0
